@@ -198,10 +198,13 @@ def run(prop: str, tier: str, seed: int) -> int:
                                     "hook log: feature %s left in auto mode after resolution in case %d" % (feat, c.id),
                                     case_payload(c, {"kind": "hook"})))
                 coverage["auto_resolution_outcomes_seen"] = seen
-                for feat, outs in AUTO_OUTCOMES.items():
-                    for o in outs:
-                        if seen[feat].get(o, 0) == 0:
-                            inconclusive.append("auto resolution outcome %s -> %s never observed in the hook log" % (feat, o))
+                # which outcome auto picks "may change at any time": the outcomes seen are evidence, not a
+                # requirement; only a feature whose auto mode was never exercised at all is inconclusive
+                coverage["auto_resolution_outcomes_missing"] = [
+                    "%s->%s" % (feat, o) for feat, outs in AUTO_OUTCOMES.items() for o in outs if seen[feat].get(o, 0) == 0]
+                for feat in AUTO_OUTCOMES:
+                    if not seen[feat]:
+                        inconclusive.append("auto mode of %s never exercised" % feat)
             if prop == "C16":
                 ctxs = {}
                 for v in groups.values():
